@@ -36,6 +36,7 @@ type GenSpec struct {
 	Args   []string `json:"args"`
 	Kind   string   `json:"kind"` // "go" | "path"
 	Package string  `json:"package"`
+	YangDir string  `json:"yangdir"` // directory under /verif/gen holding the files (default "yang")
 }
 
 type KnownFinding struct {
@@ -283,7 +284,15 @@ func cmdReplay(args []string) int {
 			fatal("%v", err)
 		}
 	}
-	ld, err := prepareOverlay([]string{rp.PkgDir}, tmp)
+	pkgDirs := []string{rp.PkgDir}
+	if ps := props[rp.Property]; ps != nil {
+		for _, d := range ps.Pkgs {
+			if d != rp.PkgDir {
+				pkgDirs = append(pkgDirs, d)
+			}
+		}
+	}
+	ld, err := prepareOverlay(pkgDirs, tmp)
 	if err != nil {
 		fatal("%v", err)
 	}
